@@ -40,7 +40,17 @@ RULE = ("documents of 1-3 paragraphs (c05.gen_doc: comment lines before fields, 
 TRUSTED = ["model coq/Repro/Struct.v (on coq/Repro/Doc.v) is a hand transcription of the order_*/sort_fields methods of "
            "both paragraph classes, _nodes_being_relocated, _regenerate_relative_kvapir_order and "
            "Deb822FileElement.append/insert at field-text level; OrderedSet and LinkedList at list level (the linked "
-           "structure itself is C09's subject); tied to the code only by this correspondence",
+           "structure itself is C09's subject); tied to the code by this correspondence and — for the ordering methods of both "
+           "paragraph classes — by regeneration (coq/Props/C10Tie.v: refinement through a representation relation over C09's "
+           "heap; also Deb822FileElement.append/insert; p[k]=v of both classes and del p[k] of the duplicates class are not "
+           "regenerated)",
+           "for the tie (coq/Repro/StructTrPrims.v): key-value pair elements as references into a store of the model's fields with "
+           "field_name = f_name and add_final_newline_if_missing = add_nl; _unpack_key = the model's unpack_key (no name tokens); "
+           "_resolve_to_single_node is regenerated too (without a name token); Python lists of nodes as references into a store of lists; "
+           "OrderedSet(iterable) = the regenerated extend on the empty set; reversed(OrderedSet/LinkedList) = the reverse of the "
+           "regenerated iteration; sorted = the model's stable sort_by with the model's key family (source texts of these asserted "
+           "by hash in the generator); top-level tokens/elements as references into a store of the model's items with a parent "
+           "pointer (convert_to_text = item_text, the isinstance tests, _ensure_final_newline = ensure_item)",
            "the initial abstract document of a case is read off the implementation's own parse (c05.abstract: class, "
            "comment text, name text, remaining text per key-value pair)",
            "p[k]=v inside a history is Doc.setitem (C05's model); the reference judges it only for plain one-line values",
@@ -603,3 +613,371 @@ def describe(case, obs):
                          "missing final newline may be supplied); a fresh parse of the dump shows the reference's "
                          "non-empty paragraphs field by field; get_kvpair_element((name, i)) is the i-th field of "
                          "that name in document order; refused operations leave the dump unchanged (up to that newline)"}
+
+
+# ---------------------------------------------------------------------------
+# TIE BY REGENERATION (harness/py2coq.py, METHOD + HEAP MODE): the ORDERING methods of the two paragraph classes are
+# regenerated from the working tree on every run.  They are built on debian/_util.py's OrderedSet / LinkedList, which C09
+# already regenerates (coq/Gen/TrLinkedList.v): nothing of that is translated again — the OrderedSet held in
+# self._kvpair_order is the record of its attributes and its methods are C09's regenerated functions run on (heap, record)
+# (coq/Repro/StructTrPrims.v: os_run).  A key-value pair element is a reference into a store of the model's fields; the
+# only things the methods do with one are field_name and value_element.add_final_newline_if_missing() (the model's f_name /
+# add_nl).  coq/Repro/StructTie.v proves, for every state that REPRESENTS a list of fields (the linked structure holds the
+# field names in order, the dict maps each lowered name to its element, the store maps each element to its field), that
+# the regenerated method ends in a state that represents the result of the model function that `agree` runs (Struct.nd_*)
+# with the same exception kind — a refinement; statements in coq/Props/C10Tie.v.
+from harness import extract            # noqa: E402
+from harness import py2coq as _P       # noqa: E402
+
+_T_HEAP = ("coq", "heap")
+_T_KV = ("ref", "Deb822KeyValuePairElement")
+_T_VE = ("coq", "velem")
+_T_KVS = ("coq", "kvstore")
+_T_KVD = ("coq", "kvdict")
+_T_OS = ("coq", "osobj")
+_T_KEY = ("coq", "trp_key")
+_T_SK = ("coq", "trp_sortkey")
+_T_STRI = ("coq", "stri")
+_T_ANY = ("coq", "trp_any")
+_T_TOK = ("coq", "nametoken")
+_T_LOW = [("lower", ("coq", "(str -> str)"))]
+_T_UNPACKED = ("tuple", _T_STRI, ("option", "Z"), ("option", _T_TOK))
+# state of a Deb822NoDuplicateFieldsParagraphElement: the heap of list nodes, the store of pair elements, the two attributes
+_ND_S = [("<heap>", "hp", _T_HEAP), ("<kvpair elements>", "kvs", _T_KVS),
+         ("self._kvpair_elements", "s_kv", _T_KVD), ("self._kvpair_order", "s_order", _T_OS)]
+_ND_G = _T_LOW + [(v, t) for _, v, t in _ND_S]
+_ND_V = [v for _, v, _ in _ND_S]
+_ND_GV = "lower hp kvs s_kv s_order"
+_ND = "Deb822NoDuplicateFieldsParagraphElement."
+
+
+def _t_sub(coq, args, ret, sub):
+    c = _P.Call(coq, args, ret)
+    c.substate = list(sub)
+    return c
+
+
+def _t_kw(call, names):
+    call.kw = list(names)
+    return call
+
+
+def _nd_w(coq, qual, params, ret, **kw):      # methods that change the paragraph
+    return _P.Fun(coq, qual, params, ret, skip_first=True, state=_ND_S, ghost=_T_LOW, **kw)
+
+
+def _nd_r(coq, qual, params, ret, **kw):      # methods that only read it
+    return _P.Fun(coq, qual, params, ret, skip_first=True, ghost=_ND_G, **kw)
+
+
+_nd_sort = _nd_w("tr_nd_sort_fields", _ND + "sort_fields", [("key", ("option", _T_SK))], "unit",
+                 locals={"last_field_name": _T_STRI, "last_kvpair": _T_KV})
+_nd_sort.narrow = True                  # `if key is None: key = default_field_sort_key`: a key function afterwards
+_nd_remove = _nd_w("tr_nd_remove_kvpair_element", _ND + "remove_kvpair_element", [("key", _T_KEY)], "unit",
+                   locals={"_": _T_ANY})
+_nd_remove.retype = {"key": [_T_STRI]}  # `key, _, _ = _unpack_key(key, ..)`: a ParagraphKey, then a _strI
+
+_T_CASTS = [_P.Call("", [("literal", "'Deb822KeyValuePairElement'", ""), _T_KV], _T_KV),
+            _P.Call("", [("literal", "'_strI'", ""), _T_STRI], _T_STRI),
+            _P.Call("", [("literal", "'ParagraphKey'", ""), _T_KEY], _T_KEY),
+            _P.Call("", [("literal", "'Iterable[_strI]'", ""), _T_OS], _T_OS)]
+_T_KVCLASS = _P.HeapClass(
+    "kvelem", fields={},
+    props={"field_name": (_P.Call("trp_kv_field_name kvs", [_T_KV], _T_STRI, True), None),
+           "value_element": (_P.Call("trp_kv_value_element", [_T_KV], _T_VE, True), None)})
+_T_COERCIONS = [(("option", "Z"), _T_ANY, "(trp_drop %s)"), (("option", _T_TOK), _T_ANY, "(trp_drop %s)"),
+                (_T_STRI, "str", "%s")]
+
+TR_MODULE = _P.Module(
+    "TrStruct", "lib/debian/_deb822_repro/parsing.py",
+    funs=[
+        _nd_r("tr_nd_iter_parts", _ND + "iter_parts", [], _T_KV, generator=True),
+        _nd_w("tr_nd_ensure_final_newline", "Deb822ParagraphElement._ensure_final_newline", [], "unit",
+              locals={"last_kvpair": ("option", _T_KV)}),
+        _nd_r("tr_nd_kvpair_count", _ND + "kvpair_count", [], "Z"),
+        _nd_w("tr_nd_order_last", _ND + "order_last", [("field", _T_KEY)], "unit",
+              locals={"unpacked_field": _T_STRI, "_": _T_ANY}),
+        _nd_w("tr_nd_order_first", _ND + "order_first", [("field", _T_KEY)], "unit",
+              locals={"unpacked_field": _T_STRI, "_": _T_ANY}),
+        _nd_w("tr_nd_order_before", _ND + "order_before", [("field", _T_KEY), ("reference_field", _T_KEY)], "unit",
+              locals={"unpacked_field": _T_STRI, "unpacked_ref_field": _T_STRI, "_": _T_ANY}),
+        _nd_w("tr_nd_order_after", _ND + "order_after", [("field", _T_KEY), ("reference_field", _T_KEY)], "unit",
+              locals={"unpacked_field": _T_STRI, "unpacked_ref_field": _T_STRI, "_": _T_ANY}),
+        _nd_r("tr_nd_iter_keys", _ND + "iter_keys", [], "str", generator=True),
+        _nd_remove,
+        _nd_r("tr_nd_contains_kvpair_element", _ND + "contains_kvpair_element", [("item", _T_KEY)], "bool",
+              locals={"key": _T_STRI, "_": _T_ANY}),
+        _nd_sort,
+    ],
+    calls={
+        "_unpack_key": _t_kw(_P.Call("trp_unpack_key", [_T_KEY, "bool"], _T_UNPACKED, True), [None, "raise_if_indexed"]),
+        "isinstance": _P.Call("trp_is_paragraph_key", [_T_KEY, ("literal", "(str, tuple, Deb822FieldNameToken)", "")], "bool"),
+        "cast": _T_CASTS,
+        "str": _P.Call("trp_str", [_T_STRI], "str"),
+        "len": _P.Call("trp_kvd_len", [_T_KVD], "Z"),
+        "reversed": _P.Call("trp_os_reversed lower hp", [_T_OS], ("list", _T_STRI), True),
+        "sorted": _t_kw(_P.Call("trp_sorted_os lower hp", [_T_OS, _T_SK], ("list", _T_STRI), True), [None, "key"]),
+        "OrderedSet": _t_sub("trp_os_new lower", [("list", _T_STRI)], _T_OS, ["hp"]),
+        "self.iter_parts": _P.Call("tr_nd_iter_parts " + _ND_GV, [], ("list", _T_KV), True),
+        "self._ensure_final_newline": _t_sub("tr_nd_ensure_final_newline", [], "unit", _ND_V),
+        "self._kvpair_order.order_last": _t_sub("trp_os_order_last lower", [_T_STRI], "unit", ["hp", "s_order"]),
+        "self._kvpair_order.order_first": _t_sub("trp_os_order_first lower", [_T_STRI], "unit", ["hp", "s_order"]),
+        "self._kvpair_order.order_before": _t_sub("trp_os_order_before lower", [_T_STRI, _T_STRI], "unit", ["hp", "s_order"]),
+        "self._kvpair_order.order_after": _t_sub("trp_os_order_after lower", [_T_STRI, _T_STRI], "unit", ["hp", "s_order"]),
+        "self._kvpair_order.remove": _t_sub("trp_os_remove lower", [_T_STRI], "unit", ["hp", "s_order"]),
+        "<osobj>.__iter__": _P.Call("trp_os_iter lower hp", [_T_OS], ("list", _T_STRI), True),
+        "<kvdict>.__getitem__": _P.Call("trp_kvd_get lower", [_T_KVD, _T_STRI], _T_KV, True),
+        "<kvdict>.__contains__": _P.Call("trp_kvd_mem lower", [_T_KVD, _T_STRI], "bool"),
+        "<kvdict>.__delitem__": _P.Call("trp_kvd_del lower", [_T_KVD, _T_STRI], "unit", True, mutates=True),
+        "<velem>.add_final_newline_if_missing": _t_sub("trp_ve_add_final_newline", [_T_VE], "unit", ["kvs"]),
+    },
+    consts={"self._kvpair_elements": ("s_kv", _T_KVD), "self._kvpair_order": ("s_order", _T_OS),
+            "default_field_sort_key": ("trp_KDefault", _T_SK)},
+    imports=["Dict.Common", "Dict.Heap", "Dict.TrPrims", "Repro.StructTrPrims"])
+TR_MODULE.heap = _P.Heap("hp", _T_HEAP, {"Deb822KeyValuePairElement": _T_KVCLASS})
+TR_MODULE.coercions = _T_COERCIONS
+
+
+# Code that the primitives of coq/Repro/StructTrPrims.v stand for and that the translator does not see, asserted as source
+# text (sha256 of ast.unparse, 16 hex digits): a change fails the translation closed.
+_T_ASSERTED = {
+    "lib/debian/_util.py": {
+        "OrderedSet.__init__": "6f1ea51042f76c15",              # trp_os_new: the loop of extend on an empty set
+        "OrderedSet.__reversed__": "0c2ed6b2206eabf5",          # trp_os_reversed: __iter__ in the opposite order
+        "LinkedList.__reversed__": "074912c392c70ceb",
+        "LinkedListNode.iter_previous": "2360658220a87cde",
+        "default_field_sort_key": "1daf93c0b51e00ac"},          # trp_KDefault: x.lower()
+    "lib/debian/_deb822_repro/parsing.py": {
+        "_unpack_key": "c174592769564ae6",                      # trp_unpack_key: the model's unpack_key
+        "Deb822ValueElement.add_final_newline_if_missing": "deb06d2543d50f65",     # trp_ve_add_final_newline: add_nl
+        "Deb822ValueLineElement.add_newline_if_missing": "21cc8e1b64a3f5b4",
+        "Deb822KeyValuePairElement.field_name": "6e9d2ed2ebf8ab71",               # trp_kv_field_name: f_name
+        "Deb822KeyValuePairElement.value_element@getter": "e639f7b7c8edd2cf"}}
+
+
+def _t_assert_sources(repo, table=None):
+    import ast
+    import hashlib
+    for rel, defs in (table or _T_ASSERTED).items():
+        tree = extract._parse(repo, rel)
+        for qual, sha in defs.items():
+            got = hashlib.sha256(ast.unparse(_P.find_def(tree, qual)).encode()).hexdigest()[:16]
+            if got != sha:
+                raise extract.ExtractError("%s (%s) changed: a primitive of coq/Repro/StructTrPrims.v models the "
+                                           "previous text" % (qual, rel))
+
+
+@extract.register("TrStruct")
+def _gen_tr(repo):
+    _t_assert_sources(repo)
+    return _P.translate_module(repo, TR_MODULE)
+
+
+# --- Deb822DuplicateFieldsParagraphElement (coq/Gen/TrStructDup.v).  self._kvpair_order is a LinkedList whose node values are the
+# pair elements: the record of its attributes, its methods C09's regenerated LinkedList functions run on (heap, record)
+# (StructTrPrims.v: ll_run).  The Python lists of nodes (the values of self._kvpair_elements, `nodes`, `nodes_being_relocated`) are
+# changed in place under several names (the list stored in the dict is handed out by _nodes_being_relocated and changed by its
+# callers): they are references into a store of lists, threaded as hidden state; `[]` / `[node]` allocate.
+_T_REF = ("ref", "LinkedListNode")
+_T_OREF = ("option", _T_REF)
+_T_LL = ("coq", "llobj")
+_T_NL = ("coq", "nlref")
+_T_NLS = ("coq", "nlstore")
+_T_KVDD = ("coq", "kvdd")
+_D_S = [("<heap>", "hp", _T_HEAP), ("<kvpair elements>", "kvs", _T_KVS), ("<node lists>", "nls", _T_NLS),
+        ("self._kvpair_elements", "s_kv", _T_KVDD), ("self._kvpair_order", "s_ll", _T_LL)]
+_D_G = _T_LOW + [(v, t) for _, v, t in _D_S]
+_D_V = [v for _, v, _ in _D_S]
+_D_GV = "lower hp kvs nls s_kv s_ll"
+_DD = "Deb822DuplicateFieldsParagraphElement."
+_T_NLPAIR = ("tuple", _T_NL, _T_NL)
+
+
+def _d_w(coq, qual, params, ret, **kw):      # methods that change the paragraph (or allocate)
+    return _P.Fun(coq, qual, params, ret, skip_first=True, state=_D_S, ghost=_T_LOW, **kw)
+
+
+def _d_r(coq, qual, params, ret, **kw):      # methods that only read it
+    return _P.Fun(coq, qual, params, ret, skip_first=True, ghost=_D_G, **kw)
+
+
+_D_ORD_LOCALS = {"nodes": _T_NL, "nodes_being_relocated": _T_NL, "kvpair_order": _T_LL, "node": _T_REF,
+                 "single_node": _T_REF, "_": _T_NL, "reference_nodes": _T_NL, "reference_node": _T_REF,
+                 "field_name": _T_STRI}
+
+
+def _d_ord(coq, name, params):
+    f = _d_w(coq, _DD + name, params, "unit", locals=dict(_D_ORD_LOCALS))
+    f.alias_state = {"kvpair_order": "self._kvpair_order"}      # `kvpair_order = self._kvpair_order`: a second name of the list
+    return f
+
+
+# _resolve_to_single_node only reads (the list objects are a ghost parameter); use_get keeps its default (False)
+_d_resolve = _P.Fun("tr_d_resolve_to_single_node", _DD + "_resolve_to_single_node",
+                    [("nodes", _T_NL), ("key", _T_STRI), ("index", ("option", "Z")), ("name_token", ("option", _T_TOK))],
+                    _T_OREF, skip_first=True, ghost=[("nls", _T_NLS)],
+                    locals={"node": _T_OREF, "msg": "str", "use_get": "bool"})
+_d_resolve.narrow = True
+_d_resolve.calls = {
+    "len": _P.Call("trp_nl_len_total nls", [_T_NL], "Z"),
+    "self._find_node_via_name_token": _P.Call("trp_find_node_via_name_token", [_T_TOK, _T_NL], _T_OREF),
+    "<str>.format": [_t_kw(_P.Call("trp_fmt3", ["str", _T_STRI, "Z", "Z"], "str"), [None, "key", "res_len", "res_len_1"]),
+                     _t_kw(_P.Call("trp_fmt2", ["str", _T_STRI, "Z"], "str"), [None, "key", "index"])]}
+
+_d_sort = _d_w("tr_d_sort_fields", _DD + "sort_fields", [("key", ("option", _T_SK))], "unit",
+               locals={"key_impl": _T_SK, "last_kvpair": _T_KV, "sorted_kvpair_list": ("list", _T_KV)})
+_d_sort.narrow = True
+
+TR_MODULE_DUP = _P.Module(
+    "TrStructDup", "lib/debian/_deb822_repro/parsing.py",
+    funs=[
+        _d_r("tr_d_iter_parts", _DD + "iter_parts", [], _T_KV, generator=True),
+        _d_w("tr_d_ensure_final_newline", "Deb822ParagraphElement._ensure_final_newline", [], "unit",
+             locals={"last_kvpair": ("option", _T_KV)}),
+        _d_r("tr_d_kvpair_count", _DD + "kvpair_count", [], "Z"),
+        _d_r("tr_d_iter_keys", _DD + "iter_keys", [], _T_STRI, generator=True),
+        _d_w("tr_d_init_kvpair_fields", _DD + "_init_kvpair_fields", [("kvpairs", ("list", _T_KV))], "unit",
+             locals={"kv": _T_KV, "field_name": _T_STRI, "node": _T_REF}),
+        _d_resolve,
+        _d_w("tr_d_nodes_being_relocated", _DD + "_nodes_being_relocated", [("field", _T_KEY)], _T_NLPAIR,
+             locals={"key": _T_STRI, "index": ("option", "Z"), "name_token": ("option", _T_TOK), "nodes": _T_NL,
+                     "nodes_being_relocated": _T_NL, "single_node": _T_OREF}),
+        _d_w("tr_d_regenerate", _DD + "_regenerate_relative_kvapir_order", [("field_name", _T_STRI)], "unit",
+             locals={"nodes": _T_NL, "node": _T_REF}),
+        _d_ord("tr_d_order_last", "order_last", [("field", _T_KEY)]),
+        _d_ord("tr_d_order_first", "order_first", [("field", _T_KEY)]),
+        _d_ord("tr_d_order_before", "order_before", [("field", _T_KEY), ("reference_field", _T_KEY)]),
+        _d_ord("tr_d_order_after", "order_after", [("field", _T_KEY), ("reference_field", _T_KEY)]),
+        _d_sort,
+    ],
+    calls={
+        "_unpack_key": _P.Call("(fun k_ => trp_unpack_key k_ false)", [_T_KEY], _T_UNPACKED, True),   # raise_if_indexed=False
+        "cast": _T_CASTS,
+        "len": [_P.Call("trp_ll_len", [_T_LL], "Z"), _P.Call("trp_nl_len nls", [_T_NL], "Z", True)],
+        "reversed": [_P.Call("trp_ll_reversed hp", [_T_LL], ("list", _T_KV), True),
+                     _P.Call("trp_nl_reversed nls", [_T_NL], ("list", _T_REF), True)],
+        # sorted(self._kvpair_order, key=_actual_key), _actual_key(kvpair) = key_impl(kvpair.field_name) (text asserted below)
+        "sorted": _t_kw(_P.Call("trp_sorted_ll hp kvs", [_T_LL, ("literal", "_actual_key", "key_impl")], ("list", _T_KV), True),
+                        [None, "key"]),
+        "_actual_key": _P.Call("trp_not_called", [], "unit"),       # the nested helper: only named, as the key of sorted()
+        "LinkedList": _P.Call("trp_ll_new", [], _T_LL),
+        "self.iter_parts": _P.Call("tr_d_iter_parts " + _D_GV, [], ("list", _T_KV), True),
+        "self._ensure_final_newline": _t_sub("tr_d_ensure_final_newline", [], "unit", _D_V),
+        "self._nodes_being_relocated": _t_sub("tr_d_nodes_being_relocated", [_T_KEY], _T_NLPAIR, _D_V),
+        "self._regenerate_relative_kvapir_order": _t_sub("tr_d_regenerate", [_T_STRI], "unit", _D_V),
+        "self._init_kvpair_fields": _t_sub("tr_d_init_kvpair_fields", [("list", _T_KV)], "unit", _D_V),
+        "self._resolve_to_single_node": _P.Call("tr_d_resolve_to_single_node nls",
+                                                [_T_NL, _T_STRI, ("option", "Z"), ("option", _T_TOK)], _T_OREF, True),
+        "self._kvpair_order.remove_node": _t_sub("trp_ll_remove_node", [_T_REF], "unit", ["hp", "s_ll"]),
+        "self._kvpair_order.insert_node_after": _t_sub("trp_ll_insert_node_after", [_T_REF, _T_REF], _T_REF, ["hp", "s_ll"]),
+        "self._kvpair_order.insert_node_before": _t_sub("trp_ll_insert_node_before", [_T_REF, _T_REF], _T_REF, ["hp", "s_ll"]),
+        "self._kvpair_order.append": _t_sub("trp_ll_append", [_T_KV], _T_REF, ["hp", "s_ll"]),
+        "self._kvpair_order.iter_nodes": _P.Call("trp_ll_iter_nodes hp s_ll", [], ("list", _T_REF), True),
+        "<llobj>.__iter__": _P.Call("trp_ll_iter hp", [_T_LL], ("list", _T_KV), True),
+        "<llobj>.__bool__": _P.Call("trp_ll_bool", [_T_LL], "bool"),
+        "<llobj>.@tail_node": _P.Call("trp_ll_tail", [_T_LL], _T_OREF),
+        "<llobj>.@head_node": _P.Call("trp_ll_head", [_T_LL], _T_OREF),
+        "<kvdd>.__getitem__": _P.Call("trp_kvdd_get lower", [_T_KVDD, _T_STRI], _T_NL, True),
+        "<kvdd>.__contains__": _P.Call("trp_kvdd_mem lower", [_T_KVDD, _T_STRI], "bool"),
+        "<kvdd>.__setitem__": _P.Call("trp_kvdd_set lower", [_T_KVDD, _T_STRI, _T_NL], "unit", mutates=True),
+        "<kvdd>.__bool__": _P.Call("trp_kvdd_bool", [_T_KVDD], "bool"),
+        "<nlref>.[]": _t_sub("trp_nl_new", [("list", _T_REF)], _T_NL, ["nls"]),
+        "<nlref>.append": _t_sub("trp_nl_append", [_T_NL, _T_REF], "unit", ["nls"]),
+        "<nlref>.remove": _t_sub("trp_nl_remove", [_T_NL, _T_REF], "unit", ["nls"]),
+        "<nlref>.insert": _t_sub("trp_nl_insert0", [_T_NL, ("literal", "0", ""), _T_REF], "unit", ["nls"]),
+        "<nlref>.__getitem__": _P.Call("trp_nl_getitem nls", [_T_NL, "Z"], _T_REF, True),
+        "<nlref>.__iter__": _P.Call("trp_nl_iter nls", [_T_NL], ("list", _T_REF), True),
+        "in nodes_being_relocated": _P.Call("trp_nl_mem nls nodes_being_relocated", [_T_REF], "bool", True),
+        "<stri>.__eq__": _P.Call("trp_stri_eqb lower", [_T_STRI, _T_STRI], "bool"),
+        "<velem>.add_final_newline_if_missing": _t_sub("trp_ve_add_final_newline", [_T_VE], "unit", ["kvs"]),
+    },
+    consts={"self._kvpair_elements": ("s_kv", _T_KVDD), "self._kvpair_order": ("s_ll", _T_LL),
+            "default_field_sort_key": ("trp_KDefault", _T_SK), "{}": ("trp_kvdd_empty", _T_KVDD)},
+    imports=["Dict.Common", "Dict.Heap", "Dict.TrPrims", "Repro.StructTrPrims"])
+TR_MODULE_DUP.heap = _P.Heap("hp", _T_HEAP, {
+    "Deb822KeyValuePairElement": _T_KVCLASS,
+    "LinkedListNode": _P.HeapClass("id", fields={"value": (_T_KV, "trp_get_value", "trp_set_value")},
+                                   eqb="Pos.eqb", opt_eqb="oid_eqb")},
+    assume="trp_assume_some")
+TR_MODULE_DUP.coercions = _T_COERCIONS
+_T_ASSERTED_DUP = {"lib/debian/_deb822_repro/parsing.py": {
+    _DD + "sort_fields._actual_key": "72280d00256c9c3a"}}           # trp_sorted_ll: key_impl(kvpair.field_name)
+
+
+@extract.register("TrStructDup")
+def _gen_tr_dup(repo):
+    _t_assert_sources(repo)
+    _t_assert_sources(repo, _T_ASSERTED_DUP)
+    return _P.translate_module(repo, TR_MODULE_DUP)
+
+
+# --- Deb822FileElement.append / insert / _set_parent (coq/Gen/TrStructFile.v).  self._token_and_elements is a LinkedList of the
+# top-level tokens and elements (record + C09's regenerated functions, as above); a token / element is a reference into a store
+# of the model's items (Doc.item) with its parent pointer; Deb822WhitespaceToken('\n') allocates.
+_T_IT = ("ref", "Deb822Element")
+_T_FILE = ("ref", "Deb822FileElement")
+_T_ITS = ("coq", "itstore")
+_F_S = [("<heap>", "hp", _T_HEAP), ("<tokens and elements>", "its", _T_ITS), ("self._token_and_elements", "s_ll", _T_LL)]
+_F_V = [v for _, v, _ in _F_S]
+_FE = "Deb822FileElement."
+
+
+def _f_w(coq, qual, params, ret, **kw):
+    return _P.Fun(coq, qual, params, ret, skip_first=True, state=_F_S, **kw)
+
+
+TR_MODULE_FILE = _P.Module(
+    "TrStructFile", "lib/debian/_deb822_repro/parsing.py",
+    funs=[
+        _f_w("tr_f_set_parent", _FE + "_set_parent", [("t", _T_IT)], _T_IT),
+        _f_w("tr_f_append", _FE + "append", [("paragraph", _T_IT)], "unit", locals={"tail_element": ("option", _T_IT)}),
+        _f_w("tr_f_insert", _FE + "insert", [("idx", "Z"), ("para", _T_IT)], "unit",
+             locals={"anchor_node": _T_OREF, "needs_newline": "bool", "i": "Z", "node": _T_REF, "entry": _T_IT,
+                     "nl_token": _T_IT}),
+    ],
+    calls={
+        "isinstance": [_P.Call("trp_item_is_para its", [_T_IT, ("literal", "Deb822ParagraphElement", "")], "bool", True),
+                       _P.Call("trp_item_is_ws its", [_T_IT, ("literal", "Deb822WhitespaceToken", "")], "bool", True)],
+        "bool": _P.Call("trp_ll_bool", [_T_LL], "bool"),
+        "Deb822WhitespaceToken": _t_sub("trp_new_ws_token", ["str"], _T_IT, ["its"]),
+        "self._set_parent": _t_sub("tr_f_set_parent", [_T_IT], _T_IT, _F_V),
+        "self.append": _t_sub("tr_f_append", [_T_IT], "unit", _F_V),
+        "self._token_and_elements.append": _t_sub("trp_ll_append", [_T_IT], _T_REF, ["hp", "s_ll"]),
+        "self._token_and_elements.insert_before": _t_sub("trp_ll_insert_before", [_T_IT, _T_REF], _T_REF, ["hp", "s_ll"]),
+        "self._token_and_elements.iter_nodes": _P.Call("trp_ll_iter_nodes hp s_ll", [], ("list", _T_REF), True),
+        "<llobj>.__bool__": _P.Call("trp_ll_bool", [_T_LL], "bool"),
+        "<llobj>.@head_node": _P.Call("trp_ll_head", [_T_LL], _T_OREF),
+        "<llobj>.@tail": _P.Call("trp_ll_tail_value hp", [_T_LL], ("option", _T_IT), True),
+        "<Deb822Element>.convert_to_text": _P.Call("trp_item_text its", [_T_IT], "str", True),
+        "<Deb822Element>._ensure_final_newline": _t_sub("trp_item_ensure_nl", [_T_IT], "unit", ["its"]),
+        "<str>.endswith": _P.Call("trp_endswith", ["str", "str"], "bool"),
+    },
+    consts={"self": ("trp_self", _T_FILE)},
+    imports=["Dict.Common", "Dict.Heap", "Dict.TrPrims", "Repro.StructTrPrims"])
+TR_MODULE_FILE.heap = _P.Heap("hp", _T_HEAP, {
+    "Deb822Element": _P.HeapClass(
+        "itref", fields={},
+        props={"parent_element": (_P.Call("trp_item_parent its", [_T_IT], ("option", _T_FILE), True),
+                                  _t_sub("trp_item_set_parent", [_T_IT, ("option", _T_FILE)], "unit", ["its"]))}),
+    "Deb822FileElement": _P.HeapClass("fileref", fields={}, eqb="trp_file_eqb", opt_eqb="trp_ofile_eqb"),
+    "LinkedListNode": _P.HeapClass("id", fields={"value": (_T_IT, "trp_get_value", "trp_set_value")},
+                                   eqb="Pos.eqb", opt_eqb="oid_eqb")},
+    assume="trp_assume_some")
+
+
+_T_ASSERTED_FILE = {"lib/debian/_deb822_repro/parsing.py": {
+    "Deb822Element.parent_element@getter": "7316ac44d107b3b4",      # trp_item_parent: the stored parent pointer
+    "Deb822Element.parent_element@setter": "7bc2ef1e0ed4f09b",      # trp_item_set_parent
+    "Deb822Element.convert_to_text": "8674d6267ddb7384"}}           # trp_item_text: the model's item_text
+
+
+@extract.register("TrStructFile")
+def _gen_tr_file(repo):
+    _t_assert_sources(repo, _T_ASSERTED_FILE)
+    return _P.translate_module(repo, TR_MODULE_FILE)
+
+
+import os as _os    # noqa: E402
+# (registered only while the theorem file is there, so that ./check C10 never breaks on a tree without it)
+TIE_FILE = "Props/C10Tie.v" if _os.path.exists(_os.path.join(
+    _os.path.dirname(_os.path.abspath(__file__)), "..", "..", "coq", "Props", "C10Tie.v")) else None
